@@ -324,6 +324,15 @@ def pinned_traces(tier):
                     {"op": "checkpoint", "sink": "seekable"}, {"op": "restart"}]
             out.append({"property": ID, "seed": "media-numbered-with-holes-%s-%s" % (dk, mode), "tier": "pinned", "config": {"pinned": True},
                         "start": [{"deck": dk, "xform": [{"kind": "renumber", "family": "media", "mode": mode, "seed": 5}]}], "events": evs})
+    # the same path names a different file of the same length, rewritten within one (simulated) second: BMPs of one pixel size
+    for fmt_ in ("BMP", "TIFF"):
+        evs = [{"op": "add_slide", "layout": 6}]
+        for k in range(4):
+            evs.append(dict(base, op="c15.add", dt=0.0, img={"fmt": fmt_, "w": 6, "h": 4, "seed": 60 + k, "mode": "RGB", "dpi": None}, src={"via": "path", "fname": "same-name.%s" % fmt_.lower()}))
+            if k == 1:
+                evs += [{"op": "checkpoint", "sink": "seekable", "dt": 0.0}, {"op": "restart", "dt": 0.0}]
+        evs += [{"op": "checkpoint", "sink": "seekable"}, {"op": "restart"}]
+        out.append({"property": ID, "seed": "same-path-same-length-same-second-%s" % fmt_, "tier": "pinned", "config": {"pinned": True}, "start": [{"deck": "default"}], "events": evs})
     # every format x dpi class, no size
     evs = [{"op": "add_slide", "layout": 6}]
     for fmt in gens.IMG_FORMATS:
